@@ -307,6 +307,10 @@ impl EncryptedWalletSeed {
 			&mut key,
 		);
 
+		// a damaged seed file may carry a nonce that is too short
+		if nonce.len() < 12 {
+			return Err(Error::Encryption);
+		}
 		let mut n = [0u8; 12];
 		n.copy_from_slice(&nonce[0..12]);
 		let unbound_key = aead::UnboundKey::new(&aead::CHACHA20_POLY1305, &key).unwrap();
